@@ -58,8 +58,6 @@ def class_cases(tier):
     n = 0
     for ln in range(0, maxlen + 1):
         for seq in itertools.permutations(kinds, ln):
-            if ln >= 3 and quick and not (("init" in seq) or ("field" in seq and ("method" in seq or "op+" in seq))):
-                continue
             if ln == 4 and not ({"field", "method"} <= set(seq)):
                 continue
             for an, (atext, ainit, ctor_args) in CLASS_ARGS.items():
@@ -69,8 +67,6 @@ def class_cases(tier):
                     if "(a)" in ptext and an in ("none",):
                         continue
                     if quick and ln >= 2 and (an not in ("none", "def-a", "def-a-default-b") or pn not in ("none", "with-arg", "abstract")):
-                        continue
-                    if quick and ln == 3 and (an, pn) not in (("none", "none"), ("def-a", "with-arg"), ("def-a-default-b", "none")):
                         continue
                     lines = list(ppre)
                     head = "class Cx" + atext + ((": " + ptext) if ptext else "")
@@ -96,9 +92,9 @@ def class_cases(tier):
 
 def fun_cases(tier):
     kinds = [("plain", "%s: Int", None, False), ("default", "%s: Int := 7", "7", False), ("default-str", '%s: Str := "d"', "'d'", False), ("vararg", "vararg %s: Int", None, True)]
-    names = ["a", "b", "c"]
+    names = ["a", "b", "c", "d"]
     n = 0
-    for k in (0, 1, 2, 3):
+    for k in (0, 1, 2, 3) + (() if tier == "quick" else (4,)):
         for combo in itertools.product(kinds, repeat=k):
             # keep to parameter lists Python accepts (C02-F1 covers the others)
             seen_default = False
